@@ -1,4 +1,4 @@
 SPECIFICATION Spec
-CONSTANTS NG = 2 Keys = {1} Rounds = 2 Modes = {"w"} WRels = {"unlock"} RRels = {"runlock"} PlainDelete = TRUE Repaired = TRUE
+CONSTANTS NG = 2 Keys = {1} Rounds = 2 Modes = {"w"} WRels = {"unlock"} RRels = {"runlock"} PlainDelete = TRUE Repaired = TRUE NonAtomicDeleteUnlock = FALSE
 INVARIANTS Contract
 CHECK_DEADLOCK FALSE
